@@ -72,9 +72,7 @@ LEVEL_NOTE = ("Trusted: Lean kernel, the statements in the four Props/C04*.lean 
               "hand-over site least_squares->min_x(min_n_, min_x_), set_algorithm, MoveToFront capacity; rfl ties handCode_eq, "
               "setAlgCode_eq, mtf_cache_size_is_source) and tools/gen/c20_icgs.py (ICGS error-counter sites). The state machines "
               "themselves (Model/EnvState, FullState, AdjState, NetState, MoveToFront) are hand-written and tied by the streams only. "
-              "The network-level denotation is not executed by a driver (drv_netstate runs lst constant; the numeric models are tied "
-              "on fresh networks by the pe / netfacade streams of C05/C01). gso_indep_partial (Lemmas): q_bb in the singular case "
-              "not proved. Numeric content of cached vectors is compared with tolerance (IEEE rounding is not modelled).")
+              "The network-level denotation: see the netdenote stream (round 13). Numeric content of cached vectors is compared with tolerance (IEEE rounding is not modelled).")
 TECHNIQUE = "Lean 4 proof (invariant by induction over operation histories) + model/implementation correspondence"
 
 
